@@ -235,3 +235,12 @@ reg("C02", "exploration", "TLA+ filter semantics (Address.tla: levels, open ends
     "around every range bound; TLC judges each result against Match.",
     "Trusted: TLC. A 3-level pattern is matched under the 3-level notation, 2-level under 2-level, 1-level under free (matching a pattern under another notation raises in the library and is not generated).",
     "DESIGN.md section 5 C02", driver="c01", entry="run02")
+
+reg("C29", "model_checking", "TLA+ spec SecSession model-checked with TLC over every receive history up to length 4; trace validation of the real SecureSession against a simulated secure server under virtual time",
+    "SecSession is explored for every receive history of length four over eight frame classes and four sequence numbers plus every send (only fresh genuine wrappers or the "
+    "pre-authentication SessionResponse are passed on; accepted and sent numbers strictly increase); the real SecureSession completes the real handshake with a simulated server "
+    "and receives all one- and two-frame histories and random histories of up to 20 frames (genuine fresh / replayed / older, forged MAC, wrong key, wrong session, nested wrapper, "
+    "wrapped remote diagnosis, plain frames; numbers up to 2^48-1; frames before the handshake), then sends a request, stays silent for 55 s (keep-alive) and stops; every trace of "
+    "frames received (with the callbacks they caused) and frames sent (plain / wrapped, service, number) must be a behaviour of the spec.",
+    "Trusted: TLC, the virtual-time loop, the simulated server (library primitives for X25519 / PBKDF2 / CCM - their octets are C28). Sequence numbers travel as ranks.",
+    "DESIGN.md section 5 C29")
